@@ -78,7 +78,7 @@ var errParserC03 = errors.New("verif: parser failure")
 func (k c03cfg) demuxCfg(r *rand.Rand) DemuxCfg {
 	cfg := DemuxCfg{PacketSize: k.size, Reader: k.reader, API: k.api, ExtraAfterEOF: 16}
 	if k.reader == "bufio" {
-		cfg.BufioSize = []int{4096, 1100, 193 + r.IntN(100)}[r.IntN(3)]
+		cfg.BufioSize = []int{4096, 1100, 193 + r.IntN(100), 16, 64, 188, 192}[r.IntN(7)]
 		if k.size > 1000 {
 			cfg.BufioSize = 4096
 		}
@@ -407,6 +407,24 @@ func runC03(c *mon.Ctx) {
 			k := randomC03Cfg(r)
 			execC03(c, "truncate", i, s.Bytes[:cut], k, r, "truncated-at-every-offset")
 			c.Count("truncation_offsets_tried")
+		}
+		// a truncated final packet is the end of the stream, not an error: w whole packets followed by the first bytes of the next
+		// one (at least the 193 bytes packet size detection looks at), every reader kind, explicit and detected size
+		for w := 1; w <= 3 && w < len(s.Packets); w++ {
+			for _, extra := range []int{5, 6, 100, 187} {
+				cut := w*188 + extra
+				for _, rd := range []string{"seek", "bufio", "plain"} {
+					for _, ps := range []int{188, 0} {
+						run := RunDemux(s.Bytes[:cut], DemuxCfg{PacketSize: ps, Reader: rd, API: "packet"})
+						c.Count("truncated_final_packet_checks")
+						if run.Panic != "" {
+							c.Violate("C03/panic:"+run.PanicClass, "truncate", i, run.Panic, nil)
+						} else if errs := run.Errors(); len(errs) > 0 {
+							c.Violate("C03/error-on-truncated-final-packet:"+rd+":"+sizeCls(ps), "truncate", i, fmt.Sprintf("%d whole packets + %d bytes: %v", w, extra, errs[0]), map[string]any{"stream": mon.Hex(s.Bytes[:cut], 800)})
+						}
+					}
+				}
+			}
 		}
 		// truncated final packet == end of stream (explicit 188 and auto)
 		for _, api := range []string{"packet", "data"} {
